@@ -233,29 +233,22 @@ fn via_text(o: Outcome) -> Outcome {
     serde_json::from_str(&t).unwrap_or(o)
 }
 
-/// Manifest URNs of a report text in order of first appearance, longest first for replacement.
+/// URN renaming table for the cross-run normal form.
 fn urn_order(txt: &str) -> Vec<(usize, String)> {
-    let b = txt.as_bytes();
-    let mut urns: Vec<String> = vec![];
-    let mut i = 0;
-    while i < b.len() {
-        if b[i..].starts_with(b"urn:c2pa:") || b[i..].starts_with(b"urn:uuid:") {
-            let mut end = i;
-            while end < b.len() && !matches!(b[end], b'"' | b'/' | b'\\' | b' ') {
-                end += 1;
-            }
-            let u = String::from_utf8_lossy(&b[i..end]).to_string();
-            if !urns.contains(&u) {
-                urns.push(u);
-            }
-            i = end.max(i + 1);
-        } else {
-            i += 1;
+    // Only the active manifest's URN is new in every signing run; ingredient manifests keep the labels they have in
+    // their own assets (identical on both sides of every comparison made here). Renaming by order of first
+    // appearance in the JSON text would depend on the iteration order of the reader's manifest HashMap.
+    let v: Value = serde_json::from_str(txt).unwrap_or(Value::Null);
+    match v["active_manifest"].as_str() {
+        Some(l) => {
+            let u = match l.find("urn:") {
+                Some(i) => &l[i..],
+                None => l,
+            };
+            vec![(0, u.to_string())]
         }
+        None => vec![],
     }
-    let mut order: Vec<(usize, String)> = urns.into_iter().enumerate().collect();
-    order.sort_by_key(|(_, u)| std::cmp::Reverse(u.len()));
-    order
 }
 
 fn rename_urns(s: &str, order: &[(usize, String)]) -> String {
@@ -1100,28 +1093,6 @@ fn main() {
     let args: Vec<String> = std::env::args().collect();
     if args.len() >= 3 && args[1] == "--child" {
         child_main(&args[2]);
-    }
-    if args.len() >= 2 && args[1] == "--bench" {
-        let t = std::time::Instant::now();
-        let (fmt, b) = do_sign(&Src { kind: mp4_idx(), inst: 0, two_mdat: true }, 2, 0, 0, "bench").unwrap().unwrap();
-        eprintln!("source+sign {:?}", t.elapsed());
-        let t = std::time::Instant::now();
-        for _ in 0..20 { let _ = do_sign(&Src { kind: mp4_idx(), inst: 0, two_mdat: true }, 2, 0, 0, "bench"); }
-        eprintln!("20 signs {:?}", t.elapsed());
-        let t = std::time::Instant::now();
-        for _ in 0..20 { let _ = sdk::context_with(&read_settings(0)); }
-        eprintln!("20 contexts {:?}", t.elapsed());
-        let t = std::time::Instant::now();
-        for _ in 0..20 { let _ = read_outcome(&read_settings(0), &fmt, &b); }
-        eprintln!("20 reads {:?}", t.elapsed());
-        let t = std::time::Instant::now();
-        for _ in 0..20 { let _ = sdk::read_with(sdk::context_with(&read_settings(0)), &fmt, &b).map(|r| r.json().len()); }
-        eprintln!("20 raw reads {:?}", t.elapsed());
-        let c = sdk::fixture("C.jpg");
-        let t = std::time::Instant::now();
-        for _ in 0..20 { let _ = read_outcome(&read_settings(0), "image/jpeg", &c); }
-        eprintln!("20 reads C.jpg {:?}", t.elapsed());
-        std::process::exit(0);
     }
     vh::quiet_panics();
     let run = Run::from_args("C38", "exploration");
